@@ -142,6 +142,9 @@ pub struct RecGen {
     /// probability (percent) that a description is separated from the id by a
     /// TAB instead of a blank (C06 only: the id is the first *word*)
     pub tab_desc_pct: u64,
+    /// probability (percent) that an id holds non-ASCII characters (2-, 3- and 4-byte
+    /// UTF-8; never white space)
+    pub utf8_id_pct: u64,
     /// probability (percent) that a record reuses the id of the record before it
     pub dup_id_pct: u64,
 }
@@ -202,7 +205,16 @@ impl RecGen {
             let id = if i > 0 && rng.below(100) < self.dup_id_pct {
                 out[i - 1].id.clone()
             } else {
-                gen_id(rng, i)
+                let mut id = gen_id(rng, i);
+                if self.utf8_id_pct > 0 && rng.below(100) < self.utf8_id_pct {
+                    const NA: &[char] = &['\u{e9}', '\u{e4}', '\u{df}', '\u{3a9}', '\u{4e2d}', '\u{20ac}', '\u{1f9ec}'];
+                    for _ in 0..rng.usize(1, 3) {
+                        let at = rng.usize(0, id.chars().count());
+                        let byte_at = id.char_indices().nth(at).map(|x| x.0).unwrap_or(id.len());
+                        id.insert(byte_at, *rng.pick(NA));
+                    }
+                }
+                id
             };
             out.push(Rec { id, desc, seq });
         }
